@@ -48,6 +48,7 @@ def resolve_sums(e):
     return e
 
 
+COLLAPSE = [True]       # with SUM_ATOMS: products and stores yield one term per entry (off where one-hot structure must survive, e.g. Sliced)
 SUM_ATOMS = [False]     # Krylov checks: a summation that no equality determines becomes the atom sumf(lo, hi, lambda v. body)
 SUMF = z3.Function("sumf", I, I, z3.ArraySort(I, R), R)
 
@@ -81,6 +82,58 @@ def canon_lambda(var, body):
     return z3.Lambda([cv], z3.substitute(body, (var, cv)))
 
 
+def _bound_of(var, c):
+    """if the condition is a pure bound on `var` (linear, coefficient +-1, the other side free of var) return ('lo'|'hi', term) with
+    var >= term / var < term; else None"""
+    if not (z3.is_le(c) or z3.is_lt(c) or z3.is_ge(c) or z3.is_gt(c)) or not _occurs(var, c):
+        return None
+    d = c.arg(0) - c.arg(1)
+    d0 = z3.simplify(_subst(d, var, z3.IntVal(0)))
+    d1 = z3.simplify(_subst(d, var, z3.IntVal(1)))
+    d2 = z3.simplify(_subst(d, var, z3.IntVal(2)))
+    co = z3.simplify(d1 - d0)
+    if not (z3.is_int_value(co) and co.as_long() in (1, -1) and z3.eq(z3.simplify(d2 - d1), co)) or _occurs(var, d0):
+        return None
+    s_ = co.as_long()
+    # s*var + d0 OP 0
+    if s_ == 1:
+        if z3.is_le(c):
+            return ("hi", z3.simplify(-d0 + 1))       # var <= -d0
+        if z3.is_lt(c):
+            return ("hi", z3.simplify(-d0))
+        if z3.is_ge(c):
+            return ("lo", z3.simplify(-d0))
+        return ("lo", z3.simplify(-d0 + 1))
+    if z3.is_le(c):
+        return ("lo", z3.simplify(d0))                  # -var + d0 <= 0  <=>  var >= d0
+    if z3.is_lt(c):
+        return ("lo", z3.simplify(d0 + 1))
+    if z3.is_ge(c):
+        return ("hi", z3.simplify(d0 + 1))              # -var + d0 >= 0  <=>  var <= d0
+    return ("hi", z3.simplify(d0))
+
+
+def tighten(e):
+    """fold conditions that merely bound a pending summation variable into the range of the summation (sound: the guarded terms outside
+    the tightened range are zero)"""
+    conds = list(e.conds)
+    sums = []
+    for var, lo, hi in e.sums:
+        lo_t, hi_t = iterm(lo), iterm(hi)
+        rest = []
+        for c in conds:
+            b = _bound_of(var, c)
+            if b is None:
+                rest.append(c)
+            elif b[0] == "lo":
+                lo_t = z3.If(b[1] > lo_t, b[1], lo_t)
+            else:
+                hi_t = z3.If(b[1] < hi_t, b[1], hi_t)
+        conds = rest
+        sums.append((var, SInt(z3.simplify(lo_t)), SInt(z3.simplify(hi_t))))
+    return Ent(conds, e.val, tuple(sums), e.zf)
+
+
 def ents_expr(ents):
     """the entry as one z3 Real term"""
     t = z3.RealVal(0)
@@ -90,10 +143,12 @@ def ents_expr(ents):
     if any(e.sums for e in ents) and not SUM_ATOMS[0]:
         raise Unsupported("a symbolic summation is left undetermined (operand without one-hot structure)")
     for e in ents:
+        if e.sums and e.conds:
+            e = tighten(e)
         c = z3.And(*e.conds) if e.conds else z3.BoolVal(True)
         body = z3.If(c, e.val, z3.RealVal(0)) if e.conds else e.val
         for var, lo, hi in reversed(e.sums):       # innermost summation variable last
-            body = SUMF(iterm(lo), iterm(hi), canon_lambda(var, body))
+            body = SUMF(z3.simplify(iterm(lo)), z3.simplify(iterm(hi)), canon_lambda(var, body))
         t = t + body
     return z3.simplify(t)
 
@@ -391,7 +446,7 @@ class IArr(IdxND):
     def __mul__(self, o):
         if isinstance(o, IArr):
             shape, fa, fb, dt = self._bcast(o)
-            if SUM_ATOMS[0]:
+            if SUM_ATOMS[0] and COLLAPSE[0]:
                 # Krylov mode: operands are general expressions, not one-hot structures: one term per entry
                 return IArr(shape, lambda *idx: [Ent([], _mulv(ents_expr(fa(*idx)), ents_expr(fb(*idx))))], dt)
             return IArr(shape, lambda *idx: [resolve_sums(Ent(a.conds + b.conds, _mulv(a.val, b.val), a.sums + b.sums, a.zf + b.zf)) for a in fa(*idx) for b in fb(*idx)], dt)
@@ -696,7 +751,7 @@ def _update_array(array, update, *slices):
                 usrc = usrc[len(usrc) - upd.ndim:]
             usrc = [z3.IntVal(0) if SInt.lift(s_).concrete() == 1 else t for t, s_ in zip(usrc, upd.shape)]
             new_terms = upd.fn(*usrc)
-        if SUM_ATOMS[0] and not sums:
+        if SUM_ATOMS[0] and COLLAPSE[0] and not sums:
             cond = z3.And(*inside) if inside else z3.BoolVal(True)
             return [Ent([], z3.If(cond, ents_expr(new_terms), ents_expr(array.fn(*idx))))]
         new = [resolve_sums(Ent(e.conds + inside + eqs, e.val, e.sums + tuple(sums), e.zf)) for e in new_terms]
